@@ -1,7 +1,7 @@
 #!/usr/bin/env python3
 """C01: the transformation result equals the tree XSLT 1.0 defines. Generated stylesheet ASTs (every instruction form alone,
 every ordered pair nested / in sequence, triples reduced) x small documents, against the reference interpreter lib/refxslt.py."""
-import os, sys, time, json, itertools
+import os, sys, time, json, itertools, zlib
 sys.path.insert(0, os.path.join(os.path.dirname(os.path.abspath(__file__)), '..', 'lib'))
 import vlib, refdoc as R, refxpath as X, refxslt as S
 from refxpath import num, s, fn, b, step, path, name, NODE, TEXTT, WILD, DOS
@@ -118,7 +118,7 @@ def programs(tier):
                 for dn, body in L[::4]:
                     yield '%s[%s[%s]]' % (cn, cn2, dn), mk(mk2(body))
     for (d1, b1), (d2, b2) in itertools.product(L, L2):
-        if thorough or (hash(d1 + d2) % 3 == 0):
+        if thorough or (zlib.crc32((d1 + d2).encode()) % 3 == 0):      # a fixed third (not Python's per-process string hash)
             yield '%s ; %s' % (d1, d2), b1 + b2
 
 
